@@ -4,20 +4,35 @@ EXTENDS Ledger, Json
 
 CONSTANTS AMOUNTS, NONCES, TXHS, MAXH, MAXOPS, FACTORS, POWERS, SLASHIDS, NSTDELTAS, GENBAL,
           FAILBUDGET,  \* failing operations allowed per behaviour (>= MAXOPS: unlimited, not counted)
+          PREFUND,     \* every staker starts with a Deposit of this amount in every LST/NST asset (0 = none)
+          PREDEL,      \* ... and then delegates this amount of it to every operator (0 = none)
+          EVENTS,      \* event names enabled in Next (generation profiles)
           FRESH   \* TRUE: every undelegation request carries a (nonce, tx hash) pair never used before
 
 VARIABLES L, G, hist, last, nfail
 vars == <<L, G, hist, last, nfail>>
 
+\* generation convenience: the behaviour starts with one Deposit per (staker, LST/NST asset)
+PreEvents ==
+  IF PREFUND = 0 THEN <<>>
+  ELSE LET ks == SetToSeq({k \in SKeys : KIND[k[2]] # "nat"})
+           ds == IF PREDEL = 0 THEN <<>> ELSE SetToSeq({k \in DKeys : KIND[k[2]] # "nat"})
+       IN [i \in DOMAIN ks |-> [ev |-> "Deposit", a |-> [s |-> ks[i][1], a |-> ks[i][2], x |-> PREFUND]]] \o
+          [i \in DOMAIN ds |-> [ev |-> "Delegate", a |-> [s |-> ds[i][1], a |-> ds[i][2], o |-> ds[i][3], x |-> PREDEL]]]
+PreState ==
+  LET step(acc, e) == LET r == Apply(acc.L, e.ev, e.a) IN [L |-> r.st, G |-> GhostStep(acc.G, e.ev, e.a, r.err = "", acc.L, r.st)]
+  IN Fold(step, [L |-> [EmptyStore EXCEPT !.bal = [s \in STAKERS |-> GENBAL]], G |-> ZeroG], PreEvents)
+
 Init ==
-  /\ L = [EmptyStore EXCEPT !.bal = [s \in STAKERS |-> GENBAL]]
-  /\ G = [ZeroG EXCEPT !.used = {}]
-  /\ hist = <<>>
+  /\ L = PreState.L
+  /\ G = PreState.G
+  /\ hist = PreEvents
   /\ last = [ev |-> "init", ok |-> TRUE]
   /\ nfail = 0
 
 Do(ev, a) ==
-  /\ Len(hist) < MAXOPS
+  /\ ev \in EVENTS
+  /\ Len(hist) < MAXOPS + Len(PreEvents)
   /\ LET r == Apply(L, ev, a) IN
      /\ (r.err = "" \/ nfail < FAILBUDGET)
      /\ nfail' = IF r.err # "" /\ FAILBUDGET < MAXOPS THEN nfail + 1 ELSE nfail
@@ -63,5 +78,5 @@ InvIndex        == IndexBijective(L)
 InvAtomic       == last.ok \/ TRUE
 
 \* behaviour generation: print the history once it reaches the depth bound
-EmitAtDepth == Len(hist) < MAXOPS \/ PrintT("BEHAVIOUR " \o ToJson(hist))
+EmitAtDepth == Len(hist) < MAXOPS + Len(PreEvents) \/ PrintT("BEHAVIOUR " \o ToJson(hist))
 =============================================================================
